@@ -486,8 +486,6 @@ HUNT = {
             "an inline number in exponent, hex, underscore or leading-dot / plus spelling means what the same token means in the long form (or the parameter is rejected), never a silently truncated prefix"),
     "F63": ("C20.hunt.inline_bracket_values", ["C20", "C06"],
             "an inline [..] value ends at its closing bracket: the parameters after it are parsed, and a list of strings is a list as in the long form"),
-    "F64": ("C07.hunt.unreachable_only_when_unreachable", ["C07"],
-            "the unreachable-join error is logged only for a join that can no longer be satisfied: not while an inbound branch is still running when another task fails the workflow"),
     "F65": ("C11.hunt.retry_expression_error_on_rerun", ["C11", "C17"],
             "a retry count / delay expression that fails when a rerun re-evaluates it fails the workflow (it does not resume and drop the retry policy)"),
     "F66": ("C07.hunt.rerun_above_split_same_route", ["C07", "C17"],
